@@ -116,6 +116,8 @@ func c13Alphabet(full bool) []string {
 		a = append(a, "alloc gauge n tags0", "alloc gauge n tags2", "alloc timer n tags2", "alloc vhist n tags0", "alloc vhist n tags2",
 			"alloc dhist m tags2", "alloc counter m tags2")
 	}
+	// the empty string is a metric name like any other
+	a = append(a, "alloc counter EMPTY tags0", "alloc timer EMPTY tags2", "alloc vhist EMPTY tags0")
 	for h := 0; h < 3; h++ {
 		for v := 0; v < 4; v++ {
 			a = append(a, fmt.Sprintf("report h%d v%d", h, v))
@@ -166,6 +168,9 @@ func c13Run(kind string, ndest, queue int, alphabet []string, hist []int) (strin
 			case "alloc":
 				var ti int
 				fmt.Sscanf(d, "tags%d", &ti)
+				if c == "EMPTY" {
+					c = ""
+				}
 				h := &c13Handle{kind: b, name: c, tags: c13TagSets[ti]}
 				switch b {
 				case "counter":
